@@ -18,6 +18,6 @@ trap '(cd $REPO && git apply -R "/verif/$d/patch.diff")' EXIT
 echo "demo patched: exit $(run_demo)"
 echo "suite: $(cd $REPO && /venv/bin/python -m pytest -q -p no:cacheprovider --timeout=900 --continue-on-collection-errors 2>&1 | tail -1)"
 for id in "$@"; do
-  out=$(timeout 1700 ./check "$id" --tier quick 2>/dev/null | grep -E "^VIOLATION|^\[" | cut -c1-300)
+  out=$(timeout 1700 ./check "$id" --tier quick 2>/dev/null | grep -E "^VIOLATION|^INFRA|^\[" | cut -c1-300)
   echo "check $id: $out"
 done
